@@ -50,6 +50,7 @@ def run(ctx):
     x11(ctx, R)
     x12(ctx, R)
     x13(ctx, R)
+    x14(ctx, R)
     l7(ctx, R)
 
 
@@ -86,13 +87,28 @@ def x1(ctx, R):
     def is_pos(e):
         return isinstance(e, ast.Attribute) and isinstance(e.value, ast.Name) and e.value.id == selfname and e.attr == "pos"
 
+    # the text may also be read back from the attribute scan() stores it in before the loop (`self.text = text`, written nowhere else)
+    text_attrs = set()
+    for a in scan.node.body:
+        if isinstance(a, ast.Assign) and isinstance(a.value, ast.Name) and a.value.id == text_param:
+            for t in a.targets:
+                if isinstance(t, ast.Attribute) and isinstance(t.value, ast.Name) and t.value.id == selfname:
+                    text_attrs.add(t.attr)
+    for a in walk_no_nested(loops[0]):
+        for t in assigned_targets(a) if isinstance(a, (ast.Assign, ast.AugAssign)) else []:
+            text_attrs.discard(t.split(".")[-1] if isinstance(t, str) else t)
+
+    def is_text(e):
+        return (isinstance(e, ast.Name) and e.id == text_param) or (
+            isinstance(e, ast.Attribute) and isinstance(e.value, ast.Name) and e.value.id == selfname and e.attr in text_attrs)
+
     # match variables: m = <pattern>.match(text, self.pos)
     match_defs = {}
     for n in walk_no_nested(loops[0]):
         if isinstance(n, ast.Assign) and isinstance(n.targets[0], ast.Name) and isinstance(n.value, ast.Call) \
                 and isinstance(n.value.func, ast.Attribute) and n.value.func.attr == "match":
             c = n.value
-            at_pos = len(c.args) >= 2 and is_pos(c.args[1]) and isinstance(c.args[0], ast.Name) and c.args[0].id == text_param
+            at_pos = len(c.args) >= 2 and is_pos(c.args[1]) and is_text(c.args[0])
             match_defs.setdefault(n.targets[0].id, []).append((n, at_pos))
     progress = []
     for n in cfg.stmt_nodes():
@@ -776,6 +792,75 @@ def x7(ctx, R):
     ctx.need("X7", "constant-key subscripts", n, 10)
 
 
+# ------------------------------------------------------------------------------- X14
+STR_ONLY = {"lower", "upper", "strip", "lstrip", "rstrip", "startswith", "endswith", "split", "replace", "encode", "decode", "capitalize"}
+
+
+def x14(ctx, R):
+    """The value the parser hands to check_next_arg is a str, a list (string list) or a Command (test).  A method that only str has,
+    applied to it, raises AttributeError for the other two - outside the exception classes parse() catches.  Such a use (directly,
+    or inside the value-validity helper) must lie behind the type test of the slot the value is being matched with."""
+    from .c01 import _cna_names
+    ctx.rule("X14", "str-only methods are applied to the incoming argument value only after the slot's type test passed")
+    cna = R.check_next_arg
+    ATYPE, AVALUE, ADD = _cna_names(R)
+    cfg = ctx.cfg(cna)
+    vv = R.valid_value
+    uses = []  # (node, slot text or None)
+    helper_str_only = False
+    if vv is not None:
+        own = vv.params[1:] if vv.cls is not None and "staticmethod" not in vv.decorators else vv.params
+        vparam = own[1] if len(own) > 1 else None
+        for c in walk_no_nested(vv.node):
+            if isinstance(c, ast.Call) and isinstance(c.func, ast.Attribute) and c.func.attr in STR_ONLY and isinstance(c.func.value, ast.Name) \
+                    and c.func.value.id == vparam:
+                helper_str_only = True
+    for c in walk_no_nested(cna.node):
+        if not isinstance(c, ast.Call) or not isinstance(c.func, ast.Attribute):
+            continue
+        if helper_str_only and vv is not None and c.func.attr == vv.name and len(c.args) >= 2 and norm(c.args[1]) == AVALUE:
+            uses.append((c, norm(c.args[0])))
+        elif c.func.attr in STR_ONLY and isinstance(c.func.value, ast.Name) and c.func.value.id == AVALUE:
+            uses.append((c, None))
+    n = 0
+    for c, slot in uses:
+        def typed(fc, slot=slot):
+            e, pol = fact_atom(fc)
+            cp = cmp_parts(e)
+            if cp and cp[1] in ("In", "NotIn") and norm(cp[0]) == ATYPE and "type" in norm(cp[2]) and (slot is None or slot in norm(cp[2])):
+                return (cp[1] == "In") == pol
+            if isinstance(e, ast.Call) and "valid_type" in (call_name(e) or "") and len(e.args) == 2 and norm(e.args[0]) == ATYPE \
+                    and (slot is None or slot in norm(e.args[1])):
+                return pol is True
+            if cp and norm(cp[0]) == ATYPE and cp[1] in ("Eq", "NotEq") and const_value(ctx.program, cna, cp[2]) in ("string", "tag", "number"):
+                return (cp[1] == "Eq") == pol
+            return False
+        # a use inside a condition: the operands to its left in the same and-chain guard it too
+        if any(typed_expr(e, pol, ATYPE, slot, ctx, cna) for e, pol in expr_guards(c)):
+            n += 1
+            ctx.holds("X14", "%s: %s guarded in the same expression" % (cna.qualname, norm(c)[:50]))
+            continue
+        nodes = cfg.node_containing(c)
+        n += 1
+        if nodes and all(cfg.guarded(x, typed) for x in nodes):
+            ctx.holds("X14", "%s: %s behind the type test of %s" % (cna.qualname, norm(c)[:50], slot or "the slot"))
+        else:
+            ctx.violation("X14", cna, "str-method-before-type-test:%s" % (slot or norm(c)[:30]), "%s is evaluated although the type test of the "
+                          "slot has not passed: for a string list or a test given as value it applies a str method to a list / Command"
+                          % norm(c)[:60], node=c, witness="`if size [\"1\"] {}`: AttributeError escapes parse()")
+    ctx.need("X14", "str-only uses of the incoming value", n, 2)
+
+
+def typed_expr(e, pol, ATYPE, slot, ctx, cna):
+    e, pol = _atom(e, pol)
+    cp = cmp_parts(e)
+    if cp and cp[1] in ("In", "NotIn") and norm(cp[0]) == ATYPE and "type" in norm(cp[2]) and (slot is None or slot in norm(cp[2])):
+        return (cp[1] == "In") == pol
+    if isinstance(e, ast.Call) and "valid_type" in (call_name(e) or "") and len(e.args) == 2 and norm(e.args[0]) == ATYPE:
+        return pol is True
+    return False
+
+
 # ------------------------------------------------------------------------------- T4 / X8
 def t4(ctx, R, rule="T4"):
     ctx.rule(rule, "every module-level name the lookup scheme can produce is a concrete command, or the lookup rejects it before attribute access")
@@ -806,6 +891,44 @@ def t4(ctx, R, rule="T4"):
             guards["is-command-subclass"] = True
         if "hasattr" in t and "args_definition" in t:
             guards["has-args-definition"] = True
+    # an explicit registry: what its writers test before storing a class holds for every class the lookup can find, and a
+    # `.get()` answered None (or a failed membership test) that leads to UnknownCommand is the in-namespace rejection
+    ns_kind, ns_name = R.command_namespace()
+    if ns_kind == "registry":
+        stores = []
+        for g in mod.all_funcs():
+            for st_ in walk_no_nested(g.node):
+                if isinstance(st_, ast.Assign) and any(isinstance(t_, ast.Subscript) and isinstance(t_.value, ast.Name) and t_.value.id == ns_name
+                                                       for t_ in st_.targets):
+                    stores.append((g, st_))
+        direct = [st_ for st_ in mod.tree.body if isinstance(st_, ast.Assign) and any(
+            isinstance(t_, ast.Subscript) and isinstance(t_.value, ast.Name) and t_.value.id == ns_name for t_ in st_.targets)]
+        lit = mod.assigns.get(ns_name)
+        if not stores or direct or (isinstance(lit, ast.Dict) and lit.keys):
+            raise AnalysisError(rule, "command registry %s: writers not recognised (filled by a literal or at module level)" % ns_name)
+        for gname, test in (("is-command-subclass", lambda t: "issubclass" in t and "Command" in t),
+                            ("has-args-definition", lambda t: "hasattr" in t and "args_definition" in t)):
+            ok_all = True
+            for g, st_ in stores:
+                cg = ctx.cfg(g)
+                val = norm(st_.value)
+
+                def holds(fc, test=test, val=val):
+                    e, pol = fact_atom(fc)
+                    t = norm(e)
+                    return pol is True and test(t) and val in t
+                if not all(cg.guarded(x, holds) for x in cg.nodes_for(st_)):
+                    ok_all = False
+            if ok_all:
+                guards[gname] = True
+        for fc in cfg.facts():
+            e, pol = fact_atom(fc)
+            cp = cmp_parts(e)
+            if cp and cp[1] in ("Is", "IsNot") and isinstance(cp[2], ast.Constant) and cp[2].value is None \
+                    and any(any(x in cfg.reach(fc, exc=False) for x in cfg.nodes_for(r)) for r in raises):
+                guards["in-namespace"] = True
+        ctx.holds(rule, "commands are kept in the registry %s; %d store(s), each behind: %s" % (
+            ns_name, len(stores), ", ".join(k for k, v in guards.items() if v) or "nothing"))
     # first attribute access on the looked-up class must be dominated by the rejection tests
     bad = []
     for nm in cands:
@@ -878,8 +1001,19 @@ def x9(ctx, R):
                 else:
                     ctx.violation("X9", f, "format-arity:%s" % fmt[:30], "format %r takes %d value(s) but gets %d: TypeError when the message is built"
                                   % (fmt, specs, got), node=b)
+    # the template itself must be program text: run-time text in it (a token, a name) may contain `%`
+    from sa.template import template, holes
+    for f in R.reachable():
+        for b in walk_no_nested(f.node):
+            if isinstance(b, ast.BinOp) and isinstance(b.op, ast.Mod) and not isinstance(b.left, ast.Constant):
+                t = template(b.left)
+                if t is not None and holes(t):
+                    n += 1
+                    ctx.violation("X9", f, "format-template-from-data:%s" % norm(holes(t)[0].expr)[:30], "the %%-template %s contains run-time text "
+                                  "(%s): a `%%` in that text is read as a conversion and building the message raises ValueError/TypeError"
+                                  % (norm(b.left)[:60], norm(holes(t)[0].expr)[:30]), node=b,
+                                  witness='`stop "50% done";` : the error message cannot be built and the exception escapes parse()')
     # messages built with str.format / f-strings have no arity to get wrong; they count as message sites
-    from sa.template import template
     other = 0
     for f in R.reachable():
         for b in walk_no_nested(f.node):
